@@ -137,7 +137,7 @@ func checkPoint(k *run.K, c cfg, q geom.XY, centre bool) {
 		return
 	}
 	r := c.p.Reverse(f)
-	ok := fin(r) && math.Abs(r.Y-q.Y) <= 1e-9 && lonDiff(r.X, q.X) <= 1e-9
+	ok := fin(r) && math.Abs(r.Y-q.Y) <= 1e-9 && (lonDiff(r.X, q.X) <= 1e-9 || math.Abs(q.Y) == 90) // longitude is undefined at a pole
 	mon := "inverse"
 	if centre {
 		mon = "inverse-centre"
@@ -329,6 +329,14 @@ func runAll(c *run.Ctx) {
 			}
 			for _, sp := range []float64{0, 35, -35, 60, 80} {
 				runCfg("Equirectangular", R, geom.XY{X: lon0}, [2]float64{sp, sp})
+			}
+		}
+		// polar aspects of the azimuthal projections (centre exactly at a pole)
+		for _, lat0 := range []float64{90, -90} {
+			for _, lon0 := range []float64{0, 37, -120, 180} {
+				for _, name := range []string{"AzimuthalEquidistant", "Orthographic"} {
+					runCfg(name, R, geom.XY{X: lon0, Y: lat0}, [2]float64{})
+				}
 			}
 		}
 		// every parallel pair at least once per conic with a fixed origin
